@@ -159,26 +159,38 @@ Definition suffix (used : list string) (base : string) : N :=
 Definition fresh (used : list string) (name : string) : string :=
   if taken used name then name ++ str (suffix used name) else name.
 
-(** the names given to the requests of one scope, in declaration order; [used] = the lower-cased
-    names taken so far (reserved words, names of the enclosing scopes) *)
-Fixpoint uniquify (used : list string) (reqs : list string) : list string :=
-  match reqs with
-  | [] => []
-  | r :: rest =>
-      let n := fresh used (strip_us r) in
-      n :: uniquify (lower n :: used) rest
-  end.
+(** ** the name assignment of one scope.  [norm] = what [complete_setup] does to the requested name
+    before the collision test; [used] = the lower-cased names taken so far (reserved words, the
+    enumeration literals of the entity, names of the enclosing scopes); requests in declaration order *)
+Section Assign.
+  Context {A : Type} (norm : A -> string).
 
-Fixpoint uniquify_used (used : list string) (reqs : list string) : list string :=
-  match reqs with
-  | [] => used
-  | r :: rest => uniquify_used (lower (fresh used (strip_us r)) :: used) rest
-  end.
+  Fixpoint assign (used : list string) (reqs : list A) : list string :=
+    match reqs with
+    | [] => []
+    | r :: rest =>
+        let n := fresh used (norm r) in
+        n :: assign (lower n :: used) rest
+    end.
 
-(** the name assignment with the proposed fix C06_identifiers.diff applied: after the strip, runs of
-    underscores are collapsed and an empty name is replaced by the fallback of the object's kind; the
-    result of that normalisation is unchanged by [strip_us], so every theorem about [uniquify] (they hold
-    for all request lists) also covers [uniquify_fixed] *)
+  Fixpoint assign_used (used : list string) (reqs : list A) : list string :=
+    match reqs with
+    | [] => used
+    | r :: rest => assign_used (lower (fresh used (norm r)) :: used) rest
+    end.
+
+  (** a sub-scope starts from everything its parent has taken (l.688) *)
+  Definition assign_child (used : list string) (parent child : list A) : list string * list string :=
+    (assign used parent, assign (assign_used used parent) child).
+
+  (** [lookup_name]: every reference to the [i]-th declared object prints this name *)
+  Definition assigned_name (used : list string) (reqs : list A) (i : nat) : string :=
+    nth i (assign used reqs) EmptyString.
+End Assign.
+
+(** the CURRENT tree (commits 3102177, 60980b9): a request is the raw name (override / name hint /
+    fallback) together with the fallback of the object's kind; [name.strip("_")], runs of underscores
+    collapsed, an empty result replaced by the fallback *)
 Fixpoint collapse_us (prev_us : bool) (s : string) : string :=
   match s with
   | EmptyString => EmptyString
@@ -187,20 +199,24 @@ Fixpoint collapse_us (prev_us : bool) (s : string) : string :=
       else String c (collapse_us false r)
   end.
 
-Definition norm_fixed (rf : string * string) : string :=
+Definition normalize (rf : string * string) : string :=
   let n := collapse_us false (strip_us (fst rf)) in
   match n with EmptyString => snd rf | _ => n end.
 
-Definition uniquify_fixed (used : list string) (reqs : list (string * string)) : list string :=
-  uniquify used (map norm_fixed reqs).
+Definition uniquify : list string -> list (string * string) -> list string := assign normalize.
+Definition uniquify_used : list string -> list (string * string) -> list string := assign_used normalize.
+Definition uniquify_child : list string -> list (string * string) -> list (string * string) -> list string * list string :=
+  assign_child normalize.
+Definition name_of : list string -> list (string * string) -> nat -> string := assigned_name normalize.
 
-(** a sub-scope starts from everything its parent has taken (l.688) *)
-Definition uniquify_child (used : list string) (parent child : list string) : list string * list string :=
-  (uniquify used parent, uniquify (uniquify_used used parent) child).
+(** [ModuleScope.complete_setup] reserves the enumeration literals of all scopes of the entity before
+    any name is assigned (60980b9) *)
+Definition reserve_literals (used lits : list string) : list string := map lower lits ++ used.
+Definition uniquify_module (used lits : list string) (reqs : list (string * string)) : list string :=
+  uniquify (reserve_literals used lits) reqs.
 
-(** [lookup_name]: every reference to the [i]-th declared object prints this name *)
-Definition name_of (used : list string) (reqs : list string) (i : nat) : string :=
-  nth i (uniquify used reqs) EmptyString.
+(** the code as it was before 3102177 (strip only): kept for the regression witnesses *)
+Definition uniquify_strip : list string -> list string -> list string := assign strip_us.
 
 (** ** theorems about [uniquify] *)
 
@@ -345,93 +361,155 @@ Proof.
   unfold suffix. apply bsearch_free. apply dbl_free.
 Qed.
 
-(** * uniquify *)
+(** * the name assignment (any normalisation) *)
+
+Section AssignFacts.
+  Context {A : Type} (norm : A -> string).
+
+  Theorem assign_distinct : forall used reqs,
+    NoDup (map lower (assign norm used reqs)) /\
+    forall n, In n (assign norm used reqs) -> ~ In (lower n) used.
+  Proof.
+    intros used reqs. revert used. induction reqs as [| r rest IH]; intros used; simpl.
+    - split; [constructor | intros n []].
+    - set (n := fresh used (norm r)).
+      destruct (IH (lower n :: used)) as [ND Hnot].
+      assert (~ In (lower n) used) as Hn by (apply taken_false; apply fresh_free).
+      split.
+      + constructor; [| assumption].
+        intros Hin. apply in_map_iff in Hin. destruct Hin as [m [Em Hm]].
+        apply (Hnot m Hm). left. now symmetry.
+      + intros m [<- | Hm]; [assumption |].
+        intros Hu. apply (Hnot m Hm). now right.
+  Qed.
+
+  Theorem assign_length : forall used reqs, length (assign norm used reqs) = length reqs.
+  Proof.
+    intros used reqs. revert used. induction reqs; intros; simpl; [reflexivity | now rewrite IHreqs].
+  Qed.
+
+  Theorem assigned_name_inj : forall used reqs i j,
+    i < length reqs -> j < length reqs ->
+    (lower (assigned_name norm used reqs i) = lower (assigned_name norm used reqs j) <-> i = j).
+  Proof.
+    intros used reqs i j Hi Hj. split; [| now intros ->].
+    unfold assigned_name. intros E.
+    destruct (assign_distinct used reqs) as [ND _].
+    change EmptyString with (lower EmptyString) in E at 1.
+    rewrite <- !(map_nth lower) in E. simpl in E.
+    pose proof (proj1 (NoDup_nth (map lower (assign norm used reqs)) EmptyString) ND) as Hinj.
+    apply Hinj; [| | assumption]; now rewrite map_length, assign_length.
+  Qed.
+
+  Lemma assign_used_In : forall reqs used x,
+    In x (assign_used norm used reqs) <-> In x (map lower (assign norm used reqs)) \/ In x used.
+  Proof.
+    induction reqs as [| r rest IH]; intros used x; simpl.
+    - tauto.
+    - rewrite IH. simpl. tauto.
+  Qed.
+
+  Lemma NoDup_app_intro : forall (B : Type) (l1 l2 : list B),
+    NoDup l1 -> NoDup l2 -> (forall x, In x l1 -> ~ In x l2) -> NoDup (l1 ++ l2).
+  Proof.
+    intros B l1 l2 H1 H2 H. induction H1 as [| a l Ha Hl IH]; simpl; [assumption |].
+    constructor.
+    - rewrite in_app_iff. intros [Hin | Hin]; [contradiction | apply (H a); simpl; auto].
+    - apply IH. intros x Hx. apply H. now right.
+  Qed.
+
+  Theorem assign_child_distinct : forall used parent child,
+    let (p, c) := assign_child norm used parent child in
+    NoDup (map lower (p ++ c)) /\ forall n, In n (p ++ c) -> ~ In (lower n) used.
+  Proof.
+    intros used parent child. unfold assign_child.
+    destruct (assign_distinct used parent) as [NDp Hp].
+    destruct (assign_distinct (assign_used norm used parent) child) as [NDc Hc].
+    split.
+    - rewrite map_app. apply NoDup_app_intro; try assumption.
+      intros x Hx Hx2. apply in_map_iff in Hx2. destruct Hx2 as [m [<- Hm]].
+      apply (Hc m Hm). apply assign_used_In. now left.
+    - intros n Hn. apply in_app_iff in Hn. destruct Hn as [Hn | Hn]; [now apply Hp |].
+      intros Hu. apply (Hc n Hn). apply assign_used_In. now right.
+  Qed.
+End AssignFacts.
+
+(** * the current tree *)
 
 Theorem uniquify_distinct : forall used reqs,
   NoDup (map lower (uniquify used reqs)) /\
   forall n, In n (uniquify used reqs) -> ~ In (lower n) used.
-Proof.
-  intros used reqs. revert used. induction reqs as [| r rest IH]; intros used; simpl.
-  - split; [constructor | intros n []].
-  - set (n := fresh used (strip_us r)).
-    destruct (IH (lower n :: used)) as [ND Hnot].
-    assert (~ In (lower n) used) as Hn by (apply taken_false; apply fresh_free).
-    split.
-    + constructor; [| assumption].
-      intros Hin. apply in_map_iff in Hin. destruct Hin as [m [Em Hm]].
-      apply (Hnot m Hm). left. now symmetry.
-    + intros m [<- | Hm]; [assumption |].
-      intros Hu. apply (Hnot m Hm). now right.
-Qed.
+Proof. exact (assign_distinct normalize). Qed.
 
 Theorem uniquify_length : forall used reqs, length (uniquify used reqs) = length reqs.
-Proof.
-  intros used reqs. revert used. induction reqs; intros; simpl; [reflexivity | now rewrite IHreqs].
-Qed.
+Proof. exact (assign_length normalize). Qed.
 
 Theorem same_object_same_name : forall used reqs i j,
   i < length reqs -> j < length reqs ->
   (lower (name_of used reqs i) = lower (name_of used reqs j) <-> i = j).
-Proof.
-  intros used reqs i j Hi Hj. split; [| now intros ->].
-  unfold name_of. intros E.
-  destruct (uniquify_distinct used reqs) as [ND _].
-  change EmptyString with (lower EmptyString) in E at 1.
-  rewrite <- !(map_nth lower) in E. simpl in E.
-  pose proof (proj1 (NoDup_nth (map lower (uniquify used reqs)) EmptyString) ND) as Hinj.
-  apply Hinj; [| | assumption]; now rewrite map_length, uniquify_length.
-Qed.
-
-Lemma uniquify_used_In : forall reqs used x,
-  In x (uniquify_used used reqs) <-> In x (map lower (uniquify used reqs)) \/ In x used.
-Proof.
-  induction reqs as [| r rest IH]; intros used x; simpl.
-  - tauto.
-  - rewrite IH. simpl. tauto.
-Qed.
-
-Lemma NoDup_app_intro : forall (A : Type) (l1 l2 : list A),
-  NoDup l1 -> NoDup l2 -> (forall x, In x l1 -> ~ In x l2) -> NoDup (l1 ++ l2).
-Proof.
-  intros A l1 l2 H1 H2 H. induction H1 as [| a l Ha Hl IH]; simpl; [assumption |].
-  constructor.
-  - rewrite in_app_iff. intros [Hin | Hin]; [contradiction | apply (H a); simpl; auto].
-  - apply IH. intros x Hx. apply H. now right.
-Qed.
+Proof. exact (assigned_name_inj normalize). Qed.
 
 Theorem uniquify_child_distinct : forall used parent child,
   let (p, c) := uniquify_child used parent child in
   NoDup (map lower (p ++ c)) /\ forall n, In n (p ++ c) -> ~ In (lower n) used.
+Proof. exact (assign_child_distinct normalize). Qed.
+
+(** no object of the entity gets the name of one of its enumeration literals *)
+Theorem uniquify_avoids_literals : forall used lits reqs n l,
+  In n (uniquify_module used lits reqs) -> In l lits -> lower n <> lower l.
 Proof.
-  intros used parent child. unfold uniquify_child.
-  destruct (uniquify_distinct used parent) as [NDp Hp].
-  destruct (uniquify_distinct (uniquify_used used parent) child) as [NDc Hc].
-  split.
-  - rewrite map_app. apply NoDup_app_intro; try assumption.
-    intros x Hx Hx2. apply in_map_iff in Hx2. destruct Hx2 as [m [<- Hm]].
-    apply (Hc m Hm). apply uniquify_used_In. now left.
-  - intros n Hn. apply in_app_iff in Hn. destruct Hn as [Hn | Hn]; [now apply Hp |].
-    intros Hu. apply (Hc n Hn). apply uniquify_used_In. now right.
+  intros used lits reqs n l Hn Hl E.
+  destruct (uniquify_distinct (reserve_literals used lits) reqs) as [_ H].
+  apply (H n Hn). unfold reserve_literals. apply in_or_app. left. rewrite E. now apply in_map.
+Qed.
+
+(** the normalisation never leaves two adjacent underscores (3102177) *)
+Fixpoint no_double_us (prev_us : bool) (s : string) : bool :=
+  match s with
+  | EmptyString => true
+  | String c r => if is_us c then negb prev_us && no_double_us true r else no_double_us false r
+  end.
+
+Lemma collapse_no_double_us : forall s b, no_double_us b (collapse_us b s) = true.
+Proof.
+  induction s as [| c r IH]; intros b; simpl; [reflexivity |].
+  destruct (is_us c) eqn:U.
+  - destruct b; [apply IH |]. simpl. rewrite U. simpl. apply IH.
+  - simpl. rewrite U. apply IH.
 Qed.
 
 (** * examples *)
 
 Example uniquify_ex1 :
   uniquify ["signal"; "foo"; "temp"; "temp1"; "temp2"; "temp3"]
-           ["_Signal_"; "Foo"; "foo"; "temp"; "temp"; "x__y"; "temp"]
-  = ["Signal1"; "Foo1"; "foo2"; "temp4"; "temp5"; "x__y"; "temp6"].
+           [("_Signal_", "sig"); ("Foo", "sig"); ("foo", "sig"); ("temp", "temp"); ("temp", "temp");
+            ("x__y", "sig"); ("temp", "temp"); ("__", "var"); ("_", "")]
+  = ["Signal1"; "Foo1"; "foo2"; "temp4"; "temp5"; "x_y"; "temp6"; "var"; ""].
 Proof. vm_compute; reflexivity. Qed.
+
+(** regression witness: before 3102177 the same requests gave an illegal and an empty identifier *)
+Example uniquify_strip_witness :
+  uniquify_strip ["signal"] ["x__y"; "__"; "_Signal_"] = ["x__y"; ""; "Signal1"]
+  /\ ident_ok "x__y" = false /\ ident_ok "" = false
+  /\ uniquify ["signal"] [("x__y", "sig"); ("__", "sig"); ("_Signal_", "sig")] = ["x_y"; "sig"; "Signal1"]
+  /\ forallb ident_ok ["x_y"; "sig"; "Signal1"] = true.
+Proof. vm_compute. repeat split. Qed.
 
 (** the binary search is NOT a least-free-suffix search: "t3" is free, the result is "t13"
     (16 free; 8, 12 taken; 14, 13 free) *)
-Example uniquify_hole : uniquify ["t"; "t1"; "t2"; "t4"; "t8"; "t12"] ["t"] = ["t13"].
+Example uniquify_hole : uniquify ["t"; "t1"; "t2"; "t4"; "t8"; "t12"] [("t", "sig")] = ["t13"].
 Proof. vm_compute; reflexivity. Qed.
 
 Example uniquify_hole_free : taken ["t"; "t1"; "t2"; "t4"; "t8"; "t12"] "t3" = false.
 Proof. vm_compute; reflexivity. Qed.
 
 Example uniquify_child_ex :
-  uniquify_child ["signal"] ["a"; "A"; "signal"] ["a"; "b"; "a1"]
+  uniquify_child ["signal"] [("a", "sig"); ("A", "sig"); ("signal", "sig")] [("a", "var"); ("b", "var"); ("a1", "var")]
   = (["a"; "A1"; "signal1"], ["a2"; "b"; "a11"]).
 Proof. vm_compute; reflexivity. Qed.
 
+(** a port [state_0] beside a coroutine process: the literal is reserved first, the port is renamed *)
+Example uniquify_literal_ex :
+  uniquify_module ["signal"] ["state_0"; "state_1"; "GREEN"] [("state_0", "sig"); ("green", "sig"); ("s", "sig")]
+  = ["state_01"; "green1"; "s"].
+Proof. vm_compute; reflexivity. Qed.
